@@ -38,6 +38,10 @@ func (pass *SanitizeEnumMemberNames) sanitizeEnumMember(member ast.EnumValue) as
 	if member.Name[0] == '+' {
 		member.Name = tools.UpperCamelCase(fmt.Sprintf("positive%s", member.Name[1:]))
 	}
+	// an identifier can not start with a digit: `1m`, `5m` (plain numbers are renamed by RenameNumericEnumValues)
+	if len(member.Name) > 0 && member.Name[0] >= '0' && member.Name[0] <= '9' {
+		member.Name = "N" + member.Name
+	}
 
 	return member
 }
